@@ -363,3 +363,39 @@ func (w *World) discoveryMetricField() string {
 	}
 	return "vBucketDiscoveryMetric"
 }
+
+// serialCloseField: the field of the stream that holds the state of the serial (pre-5.5) close — found by its role: a
+// pointer to a struct of the stream package that carries the token channel. Falls back to the name known today.
+func (w *World) serialCloseField() (name string, data *types.Named) {
+	if dt := w.NamedType("stream", "stream"); dt != nil {
+		if st, ok := dt.Underlying().(*types.Struct); ok {
+			for i := 0; i < st.NumFields(); i++ {
+				p, ok := st.Field(i).Type().(*types.Pointer)
+				if !ok {
+					continue
+				}
+				n, ok := p.Elem().(*types.Named)
+				if !ok || n.Obj().Pkg() == nil || n.Obj().Pkg() != dt.Obj().Pkg() {
+					continue
+				}
+				ds, ok := n.Underlying().(*types.Struct)
+				if !ok {
+					continue
+				}
+				hasChan, hasBool := false, false
+				for j := 0; j < ds.NumFields(); j++ {
+					switch u := ds.Field(j).Type().Underlying().(type) {
+					case *types.Chan:
+						hasChan = true
+					case *types.Basic:
+						hasBool = hasBool || u.Kind() == types.Bool
+					}
+				}
+				if hasChan && hasBool && ds.NumFields() <= 3 {
+					return st.Field(i).Name(), n
+				}
+			}
+		}
+	}
+	return "streamEndNotSupportedData", w.NamedType("stream", "streamEndNotSupportedData")
+}
